@@ -1,0 +1,96 @@
+//go:build verif
+
+// Contracts for package encoding (comment-only; read by /verif/bin/zv, never compiled into the product).
+package encoding
+
+//@ const_global zeroTime: abs(zeroTime) == 0
+
+//@ func TimeFromInt
+//@   ensures val: abs(result) == ts + 62135596800000000000
+//@   pure
+//@   nopanic
+
+//@ func TimeIntFromBytes
+//@   requires len(b) >= 8
+//@   ensures val: result == i64of(u64At(b, 0))
+//@   pureheap
+//@   nopanic
+
+//@ func TimeFromBytes
+//@   requires len(b) >= 8
+//@   ensures val: abs(result) == untilOf(b)
+//@   pureheap
+//@   nopanic
+
+//@ func RoundTimeUp
+//@   requires resolution > 0
+//@   ensures grid: emod(abs(result), resolution) == 0
+//@   ensures least_ge: abs(result) >= abs(ts) && abs(result) - abs(ts) < resolution
+//@   pure
+//@   nopanic
+
+//@ func RoundTimeDown
+//@   requires resolution > 0
+//@   ensures grid: emod(abs(result), resolution) == 0
+//@   ensures greatest_le: abs(result) <= abs(ts) && abs(ts) - abs(result) < resolution
+//@   pure
+//@   nopanic
+
+//@ func RoundTimeUntilUp
+//@   requires resolution > 0
+//@   ensures zero_fix: abs(ts) == 0 ==> abs(result) == 0
+//@   ensures abs_case: abs(ts) != 0 && abs(until) == 0 ==> emod(abs(result), resolution) == 0 && abs(result) >= abs(ts) && abs(result) - abs(ts) < resolution
+//@   ensures anchored: abs(ts) != 0 && abs(until) != 0 && abs(until) - abs(ts) == clamp64(abs(until) - abs(ts)) ==>
+//@       emod(abs(until) - abs(result), resolution) == 0 && abs(result) >= abs(ts) && abs(result) - abs(ts) < resolution
+//@   pure
+//@   nopanic
+
+//@ func RoundTimeUntilDown
+//@   requires resolution > 0
+//@   ensures zero_fix: abs(ts) == 0 ==> abs(result) == 0
+//@   ensures abs_case: abs(ts) != 0 && abs(until) == 0 ==> emod(abs(result), resolution) == 0 && abs(result) <= abs(ts) && abs(ts) - abs(result) < resolution
+//@   ensures anchored: abs(ts) != 0 && abs(until) != 0 && abs(until) - abs(ts) == clamp64(abs(until) - abs(ts)) ==>
+//@       emod(abs(until) - abs(result), resolution) == 0 && abs(result) <= abs(ts) && abs(ts) - abs(result) < resolution
+//@   pure
+//@   nopanic
+
+//@ func (Sequence).Until
+//@   requires len(seq) == 0 || len(seq) >= 8
+//@   ensures empty: len(seq) == 0 ==> abs(result) == 0
+//@   ensures val: len(seq) > 0 ==> abs(result) == untilOf(seq)
+//@   pureheap
+//@   nopanic
+
+//@ func (Sequence).SetUntil
+//@   requires len(seq) >= 8
+//@   requires unixNano(t) == clamp64(unixNano(t))
+//@   modifies seq[0:8]
+//@   ensures val: untilOf(seq) == abs(t)
+//@   nopanic
+
+//@ func (Sequence).DataLength
+//@   ensures val: result == len(seq) - 8
+//@   pure
+//@   nopanic
+
+//@ func (Sequence).NumPeriods
+//@   requires len(seq) == 0 || width != 0
+//@   ensures val: result == periodsOf(seq, width)
+//@   pure
+//@   nopanic
+
+// Truncate: C04/C05/C07/C14/C17. The until-branch must not write into its operand (frame), every period
+// wholly inside (asOf, until] is kept with identical bytes, nothing outside is kept.
+//@ func (Sequence).Truncate
+//@   let U = untilOf(seq)
+//@   let n = periodsOf(seq, width)
+//@   requires wf: wfSeq(seq, width) && resolution > 0 && resolution < 1152921504606846976
+//@   requires times: normalTime(asOf) && normalTime(until) && (len(seq) > 0 ==> normalAbs(U))
+//@   ensures empty_in: len(seq) == 0 ==> len(result) == 0
+//@   ensures shape: len(result) > 0 ==> wfSeq(result, width) && emod(U - untilOf(result), resolution) == 0 && untilOf(result) <= U
+//@   ensures sub_until: len(result) > 0 ==> (let d = (U - untilOf(result)) / resolution in untilOf(result) == U - d*resolution && 0 <= d && d + periodsOf(result, width) <= n)
+//@   ensures sub_bytes: len(result) > 0 ==> (let d = (U - untilOf(result)) / resolution in forall p in 0..len(result)-8 :: result[8+p] == old(seq[8 + d*width + p]))
+//@   ensures keep_inside: len(result) > 0 ==> (let d = (U - untilOf(result)) / resolution in forall k in 0..n :: (abs(asOf) == 0 || U - k*resolution - resolution >= abs(asOf)) && (abs(until) == 0 || U - k*resolution <= abs(until)) ==> d <= k && k < d + periodsOf(result, width))
+//@   ensures drop_outside: len(result) > 0 ==> (let d = (U - untilOf(result)) / resolution in forall k in d..d+periodsOf(result, width) :: (abs(asOf) == 0 || U - k*resolution > abs(asOf)) && (abs(until) == 0 || U - k*resolution - resolution < abs(until)))
+//@   ensures nothing_kept: len(result) == 0 ==> forall k in 0..n :: !((abs(asOf) == 0 || U - k*resolution - resolution >= abs(asOf)) && (abs(until) == 0 || U - k*resolution <= abs(until)))
+//@   nopanic
